@@ -441,4 +441,32 @@ example : (buildSeq [(⟨[], exOps⟩, false), (⟨[], exOps⟩, true)] Proc.emp
       (fun os => os.map (·.map)) =
     [List.replicate 6 (.fresh 0 1), List.replicate 6 (.fresh 1 1)] := by decide
 
+/-! ### second stage: a network of a finished build is entered again on its own
+
+`with model.part:` after the model's own `with` block was closed puts exactly one frame on the two context
+stacks: the re-entered network's.  The construction scripts of `Op` have no such statement; the three
+facts below are about the same `resolve` (`Network.__init__`) that the scripts use, applied to that
+one-frame stack, and say what the harness's second stage observes (oracle only). -/
+
+/-- an SPA network that is entered again hands ITS map (the one it was built with: inherited,
+explicit or created) to every module created inside it, whatever the process state is by then -/
+theorem reentered_spa_keeps_map (m self : Nat) (seed : Option Nat) (f : Frame) (mp : MapId)
+    (hf : f.map = some mp) (W : World) :
+    resolve m self none seed [f] W = (mp, f.gov, W) := by
+  simp [resolve, configDefault, hf]
+
+/-- a plain root that is entered again finds the map recorded for it in the master dictionary -/
+theorem reentered_plain_root_keeps_map (m self : Nat) (seed : Option Nat) (r : Frame) (mp : MapId)
+    (hr : r.map = none) (W : World) (hm : W.master.lookup (m, r.net) = some mp) :
+    resolve m self none seed [r] W = (mp, none, W) := by
+  simp [resolve, configDefault, hr, rootOf, hm]
+
+/-- …whereas a plain network that is NOT recorded there (a plain container nested inside the model,
+entered on its own) starts a map of its own: the reason why the second stage re-enters the root
+and SPA containers only -/
+theorem reentered_unrecorded_plain_starts_a_map (m self : Nat) (seed : Option Nat) (r : Frame)
+    (hr : r.map = none) (W : World) (hm : W.master.lookup (m, r.net) = none) :
+    (resolve m self none seed [r] W).1 = MapId.fresh m self := by
+  simp [resolve, configDefault, hr, rootOf, hm]
+
 end C18
